@@ -307,17 +307,17 @@ func (o *orch) plan(scale float64) counts {
 	thorough := o.tier == "thorough"
 	switch o.prop {
 	case "C06":
-		c = counts{plain: 4000, maxOps: 12, chunk: 125}
+		c = counts{plain: 48000, maxOps: 14, chunk: 500, tupleEvery: 4}
 		if thorough {
 			c = counts{plain: 600000, maxOps: 40, chunk: 2500, tupleEvery: 25}
 		}
 	case "C07":
-		c = counts{plain: 3200, race: 960, cold: 256, sweep: 4, chunk: 100}
+		c = counts{plain: 8000, race: 2400, cold: 480, sweep: 16, chunk: 125}
 		if thorough {
 			c = counts{plain: 400000, race: 60000, cold: 12000, sweep: 64, chunk: 1000, tupleEvery: 10}
 		}
 	case "C15":
-		c = counts{plain: 4800, chunk: 150}
+		c = counts{plain: 64000, chunk: 500, tupleEvery: 4}
 		if thorough {
 			c = counts{plain: 800000, chunk: 2500, tupleEvery: 8}
 		}
